@@ -45,14 +45,14 @@ theorem cursors_mono {m m' : State} {K : MStack} {fs : List Frame}
     (hn : m.nextNode ≤ m'.nextNode)
     (hd : ∀ e g d', (e, g) ∈ fs.map (·.data) → (m'.emitters e).isSome → m'.data e g = some d' →
       (m.emitters e).isSome ∧ ∃ d, m.data e g = some d ∧
-        ∀ idx snap, (∀ u ∈ snap, u < m.nextNode) → LI d.slots idx snap → LI d'.slots idx snap)
+        ∀ pos snap, (∀ u ∈ snap, u < m.nextNode) → LIo d.slots pos snap → LIo d'.slots pos snap)
     (h : Cursors m K fs) : Cursors m' K fs := by
   induction K generalizing fs with
   | nil => cases fs with
     | nil => trivial
     | cons _ _ => exact absurd h (by simp [Cursors])
   | cons k K ih =>
-    obtain ⟨⟨fid, idx⟩, ⟨eg, snap⟩⟩ := k
+    obtain ⟨⟨fid, pos⟩, ⟨eg, snap⟩⟩ := k
     cases fs with
     | nil => exact absurd h (by simp [Cursors])
     | cons f fs =>
@@ -60,7 +60,7 @@ theorem cursors_mono {m m' : State} {K : MStack} {fs : List Frame}
       refine ⟨h1, h2, fun u hu => Nat.lt_of_lt_of_le (h3 u hu) hn, ?_, ?_⟩
       · intro hal d' hd'
         obtain ⟨hal0, d, hd0, hli⟩ := hd eg.1 eg.2 d' (by simp [← h2]) hal hd'
-        exact hli idx snap h3 (h4 hal0 d hd0)
+        exact hli pos snap h3 (h4 hal0 d hd0)
       · exact ih (fun e g d' hm => hd e g d' (by simp only [List.map_cons, List.mem_cons]; exact Or.inr hm)) h5
 
 theorem sim_begin {m : State} {s : SState} {K : MStack} (e g : Nat) (h : Sim m s K)
@@ -319,47 +319,54 @@ theorem sim_begin {m : State} {s : SState} {K : MStack} (e g : Nat) (h : Sim m s
         simp only [and_self, if_true, Option.some.injEq] at hd'
         subst hd'
         simp only
-        unfold LI
-        rw [hlive]
-        simp only [List.drop_zero]
-        -- every uid of the snapshot is live; the snapshot is the list of connected nodes
-        generalize hst : (s.sig e g).outerStart.getD s.clock = start
-        have hborn : ∀ x ∈ d.slots, x.state ≠ .disconnected → (x.state = .connected ↔ x.node < start) := by
-          intro x hx hnd
-          cases hos : (s.sig e g).outerStart with
-          | some t0 =>
-            rw [hos] at hst; simp only [Option.getD_some, Option.getD_none] at hst; subst hst
-            exact h.abs.born e g d _ hdd hos x hx hnd
-          | none =>
-            rw [hos] at hst; simp only [Option.getD_some, Option.getD_none] at hst; subst hst
-            have h0 := (h.abs.outer e g (by simp [hem])).1 hos
-            have hcx := hcntact h0 x hx
-            have hb := h.sl.bound e g d hdd x hx
-            rw [h.abs.clock]
-            simp [hcx, hb]
-        have hall : ∀ u ∈ ((liveOf (some d)).filter (fun c => decide (c.uid < start))).map (·.uid), liveNode d.slots u = true := by
-          intro u hu
-          simp only [List.mem_map, List.mem_filter] at hu
-          obtain ⟨c, ⟨hc, _⟩, rfl⟩ := hu
-          obtain ⟨x, hx, hnd, rfl⟩ := mem_liveOf hc
-          simp only [liveNode, List.any_eq_true]
-          exact ⟨x, hx, by simp [Slot.toConn, hnd]⟩
-        rw [List.filter_eq_self.2 hall]
-        simp only [liveOf, liveSlots, List.filter_map, List.map_map, List.filter_filter]
-        have : (d.slots.filter (fun x => (decide (x.toConn.uid < start)) && (x.state != .disconnected))) =
-            d.slots.filter (fun x => x.state == .connected) := by
-          apply List.filter_congr
-          intro x hx
-          by_cases hnd : x.state = .disconnected
-          · simp [hnd]
-          · have := hborn x hx hnd
-            by_cases hc : x.state = .connected
-            · simp [hc, Slot.toConn, this.1 hc]
-            · have hlt : ¬ x.node < start := fun hh => hc (this.2 hh)
-              simp [hc, hnd, Slot.toConn, hlt]
-        simp only [Function.comp_def] at this ⊢
-        rw [this]
-        rfl
+        by_cases hemp : d.slots.isEmpty = true
+        · simp only [hemp, if_true]
+          show (((s.sig e g).live.filter _).map _) = []
+          have hnil : d.slots = [] := by simpa using hemp
+          rw [hlive]; simp [liveOf, liveSlots, hnil]
+        · simp only [hemp, Bool.false_eq_true, if_false]
+          show LI d.slots 0 _
+          unfold LI
+          rw [hlive]
+          simp only [List.drop_zero]
+          -- every uid of the snapshot is live; the snapshot is the list of connected nodes
+          generalize hst : (s.sig e g).outerStart.getD s.clock = start
+          have hborn : ∀ x ∈ d.slots, x.state ≠ .disconnected → (x.state = .connected ↔ x.node < start) := by
+            intro x hx hnd
+            cases hos : (s.sig e g).outerStart with
+            | some t0 =>
+              rw [hos] at hst; simp only [Option.getD_some, Option.getD_none] at hst; subst hst
+              exact h.abs.born e g d _ hdd hos x hx hnd
+            | none =>
+              rw [hos] at hst; simp only [Option.getD_some, Option.getD_none] at hst; subst hst
+              have h0 := (h.abs.outer e g (by simp [hem])).1 hos
+              have hcx := hcntact h0 x hx
+              have hb := h.sl.bound e g d hdd x hx
+              rw [h.abs.clock]
+              simp [hcx, hb]
+          have hall : ∀ u ∈ ((liveOf (some d)).filter (fun c => decide (c.uid < start))).map (·.uid), liveNode d.slots u = true := by
+            intro u hu
+            simp only [List.mem_map, List.mem_filter] at hu
+            obtain ⟨c, ⟨hc, _⟩, rfl⟩ := hu
+            obtain ⟨x, hx, hnd, rfl⟩ := mem_liveOf hc
+            simp only [liveNode, List.any_eq_true]
+            exact ⟨x, hx, by simp [Slot.toConn, hnd]⟩
+          rw [List.filter_eq_self.2 hall]
+          simp only [liveOf, liveSlots, List.filter_map, List.map_map, List.filter_filter]
+          have : (d.slots.filter (fun x => (decide (x.toConn.uid < start)) && (x.state != .disconnected))) =
+              d.slots.filter (fun x => x.state == .connected) := by
+            apply List.filter_congr
+            intro x hx
+            by_cases hnd : x.state = .disconnected
+            · simp [hnd]
+            · have := hborn x hx hnd
+              by_cases hc : x.state = .connected
+              · simp [hc, Slot.toConn, this.1 hc]
+              · have hlt : ¬ x.node < start := fun hh => hc (this.2 hh)
+                simp [hc, hnd, Slot.toConn, hlt]
+          simp only [Function.comp_def] at this ⊢
+          rw [this]
+          rfl
       · apply cursors_mono (m := m) (Nat.le_of_eq hnn.symm) _ h.cur
         intro e' g' d' _ hal' hd'
         rw [hems] at hal'
